@@ -300,6 +300,9 @@ Definition sk_oy (win : Z) (sk : skeleton) : Z := eval0 win (sk_oy_expr sk).
 Definition sk_ox (win : Z) (sk : skeleton) : Z := eval0 win (sk_ox_expr sk).
 Definition sk_src (sk : skeleton) : aexp := sp_src (sk_outer sk).
 Definition sk_writes (sk : skeleton) : list write := writes_of (sk_inner_body sk).
+(* the array written by the n-th write of the inner body *)
+Definition sk_target (n : nat) (sk : skeleton) : aexp :=
+  match nth_error (sk_writes sk) n with Some w => w_target w | None => AOpaque 0 end.
 
 (* the kernel of the LAST write of the body into [tgt] *)
 Fixpoint last_kernel (tgt : aexp) (ws : list write) : option kernel :=
